@@ -6,7 +6,7 @@ ID = "C11"
 LEVEL = "model_checking"
 RULE = ("operations {runW (new WNTRSimulator), runWs (WNTRSimulator object of the previous run reused), runE (EpanetSimulator), runE20 (EpanetSimulator with version=2.0, at most once per history), reset (reset_initial_values), copy (deepcopy, continue on the "
         "copy), reload (write_json/read_json, continue on the reloaded model)}; ALL histories of length <= 3 (quick) / <= 4 "
-        "(thorough) over 22 models carrying: status time controls on a pipe, a pump and a valve; a valve setting control; a pump "
+        "(thorough) over 24 models carrying: status time controls on a pipe, a pump and a valve; a valve setting control; a pump "
         "speed control; tank-level controls; a leak window; a rule with ELSE; PDD; an initially CLOSED pump and an initially "
         "CLOSED / OPEN valve built through the API (no reset after building); a volume-curve tank; a head pump; a head pump pushed beyond the end of its curve; report steps the simulator adjusts for itself (shorter than / not a multiple of the hydraulic step); nine of them additionally with the operation edit (ONE definition edit through the public API followed by reset_initial_values(): pipe diameter, pump curve points, pattern multipliers, volume curve points, junction required pressure, leak replaced, valve initial setting, valve initial status, tank initial level) after which the model must behave like one built with the edited value from scratch.  A state is a history prefix "
         "(runtime state of live objects cannot be canonicalised, so prefixes are not merged); every transition replays the history "
@@ -30,8 +30,8 @@ def models():
     M = {}
     s = base(); s["controls"] = [{"kind": "time", "t": 2 * H, "link": "p2", "value": "CLOSED"}, {"kind": "time", "t": 4 * H, "link": "p2", "value": "OPEN"}]
     M["pipe_status"] = s
-    s = base(); s["nodes"][0]["head"] = 10.0
-    s["links"][0] = PP("p1", "R", "J1", 15000.0)
+    s = base(); s["nodes"][0]["head"] = 30.0; node(s, "T")["diam"] = 20.0     # (15 kW from 10 m does not converge: C03's power-pump finding)
+    s["links"][0] = PP("p1", "R", "J1", 2000.0)
     s["controls"] = [{"kind": "time", "t": 2 * H, "link": "p1", "value": "CLOSED"}, {"kind": "time", "t": 3 * H, "link": "p1", "value": "OPEN"}]
     M["pump_status"] = s
     s = base(); s["links"][3] = V("p4", "J1", "J2", "TCV", 5.0, D=0.2)
@@ -62,6 +62,17 @@ def models():
     # a second tank joined directly to the first one (their limit controls interact)
     s = base(); s["nodes"].append(T("T2", elev=33.0, init=2.0, mn=0.5, mx=4.0, diam=4.0)); s["links"].append(P("p5", "T2", "T", L=150.0, D=0.15))
     M["tank_pair"] = s
+    # links whose status at the END of a run differs from their initial status: a power pump, a head pump and a TCV that a time
+    # control closes for good (the tank supplies the network afterwards)
+    s = base(); s["nodes"][0]["head"] = 30.0; node(s, "T")["diam"] = 20.0
+    s["links"][0] = PP("p1", "R", "J1", 2000.0)
+    s["controls"] = [{"kind": "time", "t": 2 * H, "link": "p1", "value": "CLOSED"}]       # (as model pump_status, never reopened)
+    M["ppump_closed_at_end"] = s
+    s = base(); s["nodes"][0]["head"] = 10.0
+    s["links"][0] = HP("p1", "R", "J1", [[0.05, 40.0]])
+    s["links"][3] = V("p4", "J1", "J2", "TCV", 5.0, D=0.2)
+    s["controls"] = [{"kind": "time", "t": 3 * H, "link": "p1", "value": "CLOSED"}, {"kind": "time", "t": 2 * H, "link": "p4", "value": "CLOSED"}]
+    M["hpump_tcv_closed_at_end"] = s
     # simple controls whose instants lie BETWEEN two hydraulic steps (partial steps), written with '>=' (API only), '=' and
     # on the clock: whatever a condition object remembers of a run must not survive reset_initial_values
     s = base(); s["opts"].update(clock=2 * H)      # (hourly report rows: report_timestep ALL has no INP form, EpanetSimulator cannot write it)
@@ -72,8 +83,8 @@ def models():
     M["offgrid_time_controls"] = s
     s = base(); s["opts"].update(dm="PDD", pmin=0.0, preq=30.0, pexp=0.5)
     M["pdd"] = s
-    s = base(); s["nodes"][0]["head"] = 10.0
-    s["links"][0] = PP("p1", "R", "J1", 15000.0, status="CLOSED")
+    s = base(); s["nodes"][0]["head"] = 30.0; node(s, "T")["diam"] = 20.0
+    s["links"][0] = PP("p1", "R", "J1", 2000.0, status="CLOSED")
     s["controls"] = [{"kind": "time", "t": 2 * H, "link": "p1", "value": "OPEN"}]
     s["via_reset"] = False      # built through the API only
     M["closed_pump_api"] = s
@@ -89,8 +100,8 @@ def models():
     s["links"].append(P("p5", "J2", "J3", status="CLOSED"))
     s["controls"] = [{"kind": "time", "t": 2 * H, "link": "p5", "value": "OPEN"}, {"kind": "time", "t": 4 * H, "link": "p5", "value": "CLOSED"}]
     M["isolated_start_and_end"] = s
-    s = base(); s["nodes"][0]["head"] = 10.0
-    s["links"][0] = PP("p1", "R", "J1", 15000.0)
+    s = base(); s["nodes"][0]["head"] = 30.0; node(s, "T")["diam"] = 20.0
+    s["links"][0] = PP("p1", "R", "J1", 2000.0)
     s["controls"] = [{"kind": "time", "t": 2 * H, "link": "p1", "attr": "base_speed", "value": 0.8}]
     M["pump_speed_control"] = s
     s = base(); s["nodes"][0]["head"] = 10.0
